@@ -106,7 +106,12 @@ func placementBytes(r *mc.Run) {
 
 func placementStrings(r *mc.Run) {
 	alpha := []string{"0", "1", "2", "3", "9", "a"}
-	mc.Sequences(len(alpha), 0, 4, func(seq []int) bool {
+	maxLen := 4
+	if r.Thorough() {
+		alpha = append(alpha, " ", "-", "+", "０") // incl. a full-width digit
+		maxLen = 5
+	}
+	mc.Sequences(len(alpha), 0, maxLen, func(seq []int) bool {
 		s := ""
 		for _, i := range seq {
 			s += alpha[i]
@@ -188,6 +193,13 @@ func ttlBytes(r *mc.Run) {
 
 func ttlStrings(r *mc.Run) {
 	counts := []string{"", "0", "1", "9", "255", "256", "257", "999", "65536", "-1", "1x", "+1", "01", " 1"}
+	if r.Thorough() {
+		counts = nil
+		for c := -2; c <= 1030; c++ {
+			counts = append(counts, strconv.Itoa(c))
+		}
+		counts = append(counts, "", "1x", "+1", "01", " 1", "1 ", "0x10", "1e2", "4294967296", "18446744073709551616")
+	}
 	units := []string{"m", "h", "d", "w", "M", "y", "", "s", "Y", "0", "x"}
 	for _, c := range counts {
 		for _, u := range units {
@@ -516,7 +528,7 @@ func superBlocks(r *mc.Run) {
 						// a torn super block (any proper prefix of the image) is not a valid encoding: it must be
 						// rejected, not decoded as if zero-padded.  Every prefix for the small images, the header
 						// boundary region and the tail for the large extra.
-						if rev == 1 && ttl == "3m" {
+						if (rev == 1 && ttl == "3m") || r.Thorough() {
 							var cuts []int
 							if len(raw) <= 64 {
 								for c := 0; c < len(raw); c++ {
